@@ -35,6 +35,15 @@ func (fr *frame) baseEnv() *SpecEnv {
 			env.vars[p.Name()] = fr.params[i]
 		}
 	}
+	// parameter names given in the contract header bind by position, so that renaming a parameter in
+	// the source does not make the contract stale
+	if fr.con != nil && fr.top && len(fr.con.Params) == len(fr.fn.Params) {
+		for i, n := range fr.con.Params {
+			if i < len(fr.params) && n != "" && n != "_" {
+				env.vars[n] = fr.params[i]
+			}
+		}
+	}
 	for i, fv := range fr.fn.FreeVars {
 		if i < len(fr.freeVals) {
 			env.vars[fv.Name()] = fr.freeVals[i]
@@ -193,7 +202,9 @@ func (p *Program) verifyFuncPass(con *Contract, prev *VC) (res *funcResult) {
 			if se, ok := r.(specError); ok {
 				msg = se.msg
 			} else if _, isStr := r.(string); !isStr {
-				panic(r)
+				// a defect or limit of the generator itself on this function: never a verdict about the
+				// code; reported as out of subset (the scenario pool decides, see report)
+				msg = "generator error: " + msg
 			}
 			res.err = msg
 			if strings.Contains(msg, "unknown identifier") || strings.Contains(msg, "no field ") {
@@ -251,6 +262,17 @@ func (p *Program) verifyFuncPass(con *Contract, prev *VC) (res *funcResult) {
 		fr.freeVals = append(fr.freeVals, v)
 	}
 	fr.mem, fr.entry = mem, mem
+	// a closure verified on its own (sweep): captured map variables that the enclosing function only
+	// ever assigns make(...) before creating the closure hold a non-nil map
+	if con.Default {
+		for _, i := range capturedMapsNonNil(fn) {
+			fv := fr.freeVals[i]
+			pt := fn.FreeVars[i].Type().Underlying().(*types.Pointer)
+			cell := vc.cellComp(pt.Elem())
+			vc.assume(not(eq(app("select", vc.get(mem, cell), fv.S), "0")))
+			vc.note("captured map variable " + fn.FreeVars[i].Name() + " of " + fn.String() + " is only assigned make(...) in the enclosing function: non-nil")
+		}
+	}
 	// evaluate requires first so that every component they mention exists before wf
 	env := fr.baseEnv()
 	for i, fv := range fn.FreeVars {
@@ -282,6 +304,34 @@ func (p *Program) verifyFuncPass(con *Contract, prev *VC) (res *funcResult) {
 	canary.MustFail = true
 
 	exits := fr.run("true", mem)
+	// the contract names a loop the function does not have (the loop was moved into a helper or
+	// removed): the contract is stale
+	maxLoop := 0
+	for _, cl := range con.Clauses {
+		if cl.Loop > maxLoop {
+			maxLoop = cl.Loop
+		}
+	}
+	if maxLoop > len(fr.loops) {
+		res.stale = fmt.Sprintf("the contract names loop %d, the function has %d loop(s) (a loop was moved or removed)", maxLoop, len(fr.loops))
+		vc.obls = nil
+		return
+	}
+	// a clause anchored at the calls of F in a function that no longer calls F (the call moved into a
+	// helper or a closure): stale
+	for _, cl := range con.Clauses {
+		if (cl.Kind == "at_call" || cl.Kind == "ghost_at_call") && !vc.callsSeen[cl.Name] {
+			res.stale = fmt.Sprintf("the contract anchors a clause at calls of %s, which the function does not call (the call was moved)", cl.Name)
+			vc.obls = nil
+			return
+		}
+	}
+	if vc.undecided != "" && !con.Default && contractIsFunctional(con) {
+		vc.obls = nil
+		o := vc.oblige("engine", con.FuncName+"/engine[out of subset]", "true", "false", "")
+		o.Result = &SolverResult{Status: "unknown", Solver: "gvc", Output: vc.undecided}
+		return
+	}
 
 	var rg, pg []string
 	var rm, pm []Mem
@@ -617,3 +667,15 @@ func (fr *frame) setupLock(con *Contract, env *SpecEnv) {
 }
 
 var _ = types.Typ
+
+// contractIsFunctional: the contract states more than crash-freedom (so that a loop without an
+// invariant in an inlined helper makes it undecidable rather than merely imprecise)
+func contractIsFunctional(con *Contract) bool {
+	for _, cl := range con.Clauses {
+		switch cl.Kind {
+		case "ensures", "ensures_local", "crash_invariant", "panics_iff", "on_panic", "modifies", "lock":
+			return true
+		}
+	}
+	return false
+}
